@@ -14,7 +14,7 @@ RULE = ("Every DAG on p<=4 nodes x every requested count 0..max+1 x 3 seeds (exh
         "subset of the input's with exactly k fewer edges; add_edges -> superset with exactly k more edges, acyclic by the "
         "checker's DFS, no self-loop, no two-cycle; ValueError iff k exceeds #edges resp. p(p-1)/2 - #edges and success "
         "otherwise; same seed => same result; input unmodified. Non-trivial = 0 < k = feasible maximum, or k = maximum+1, "
-        "or a weighted input.")
+        "or a weighted input. Also: relabelling into 13..33 labels, further dtypes, a 1,200-node path, almost complete DAGs on 64..100 scrambled nodes (also float16).")
 ASSUMPTIONS = [
     "which edges are chosen is free; results are compared as 0/1 patterns",
     "DAG inputs only (the functions' documented domain)",
